@@ -310,6 +310,10 @@ func Replay(i int, raw []byte) child.Result {
 				// the generator evaluates the transcription on tuples of distinct commits only
 				p := isDev && pred == res
 				m.Predicted = &p
+				if !p {
+					// a recorded finding is the answer of the transcribed algorithm (SeekAsCoded), nothing else
+					m.Sig += "/unlike-transcription"
+				}
 			}
 			col.add(m)
 		}
